@@ -107,6 +107,51 @@ func contention(t *testing.T, out *vt.Writer, backend string, mk lockMaker, n, c
 	out.Emit(map[string]any{"ev": "LockRunEnd", "run": run})
 }
 
+// crowd: one holder keeps the lock for most of the waiters' timeout while many waiters queue up;
+// after the release they enter one after the other. Repeated rounds accumulate thousands of
+// waiter polls in one process (per-process state in a lock implementation shows up here).
+func crowd(t *testing.T, out *vt.Writer, backend string, mk lockMaker, waiters int, ttl time.Duration, run int) {
+	key := "crowd" + backend + time.Now().Format("150405.000000")
+	out.Emit(map[string]any{"ev": "LockRun", "backend": backend, "run": run, "ttlMs": ttl.Milliseconds(), "n": waiters + 1})
+	holder, err := mk(key, ttl)
+	if err != nil {
+		t.Fatal(err)
+	}
+	if _, err := holder.Lock(context.Background()); err != nil {
+		out.Emit(map[string]any{"ev": "LockErr", "c": 1, "what": "lock", "err": err.Error()})
+		return
+	}
+	out.Emit(map[string]any{"ev": "Enter", "c": 1, "kind": "lock", "waitMs": 0, "t": ms(), "ctxLive": true})
+	var wg sync.WaitGroup
+	for c := 2; c <= waiters+1; c++ {
+		wg.Add(1)
+		go func(c int) {
+			defer wg.Done()
+			l, err := mk(key, ttl)
+			if err != nil {
+				return
+			}
+			t0 := time.Now()
+			lctx, err := l.Lock(context.Background())
+			dur := time.Since(t0).Milliseconds()
+			if err != nil {
+				out.Emit(map[string]any{"ev": "Fail", "c": c, "kind": "lock", "durMs": dur, "t": ms()})
+				_ = l.Unlock(context.Background())
+				return
+			}
+			out.Emit(map[string]any{"ev": "Enter", "c": c, "kind": "lock", "waitMs": dur, "t": ms(), "ctxLive": lctx.Err() == nil})
+			time.Sleep(3 * time.Millisecond)
+			out.Emit(map[string]any{"ev": "Exit", "c": c, "t": ms()})
+			_ = l.Unlock(context.Background())
+		}(c)
+	}
+	time.Sleep(ttl * 6 / 10)
+	out.Emit(map[string]any{"ev": "Exit", "c": 1, "t": ms()})
+	_ = holder.Unlock(context.Background())
+	wg.Wait()
+	out.Emit(map[string]any{"ev": "LockRunEnd", "run": run})
+}
+
 func TestLockContention(t *testing.T) {
 	out := vt.OpenTrace(t)
 	defer out.Close()
@@ -119,6 +164,10 @@ func TestLockContention(t *testing.T) {
 		n := 3 + r%4
 		contention(t, out, "etcd", emk, n, cycles, time.Second, seed+int64(r), 2*r)
 		contention(t, out, "redis", rmk, n, cycles, time.Second, seed+int64(r), 2*r+1)
+	}
+	for r := 0; r < vt.EnvInt("VERIF_CROWDS", 3); r++ {
+		crowd(t, out, "redis", rmk, 12, 2*time.Second, 1000+2*r)
+		crowd(t, out, "etcd", emk, 12, 2*time.Second, 1001+2*r)
 	}
 }
 
